@@ -60,6 +60,23 @@ def gen_working_col_case(rng):
             'doc': [{'id': EX + 'tm/T', 'src': 'S0', 'nonasserted': False, 'subj': tm('templ', EX + 'r/{id}'), 'sjoins': [], 'classes': [], 'sgraphs': [], 'poms': poms}]}
 
 
+def gen_shared_frame_case(rng):
+    """an in-memory table (DataFrame, list of dicts, dictionary) read by several rules that reference different nullable columns: every
+    rule sees the caller's table as it was handed over, however the rules are grouped"""
+    def tm(k, v, ck='iri', tt=''):
+        return {'k': k, 'v': v, 'ck': ck, 'tt': tt}
+    EX = mapcase.EX
+    rows = [[str(i + 1), (None if rng.random() < 0.4 else rng.choice(['a', 'b'])), (None if rng.random() < 0.4 else rng.choice(['x', 'y'])), (None if rng.random() < 0.3 else 'z')]
+            for i in range(rng.choice([3, 4, 6]))]
+    poms = [{'preds': [tm('const', EX + 'p/' + c)], 'objs': [{'m': rng.choice([tm('ref', c), tm('templ', EX + 'o/{' + c + '}')]), 'lang': None, 'dt': None, 'joins': []}], 'graphs': []} for c in ('c1', 'c2', 'c3')]
+    rng.shuffle(poms)
+    doc = [{'id': EX + 'tm/T', 'src': 'S0', 'nonasserted': False, 'subj': tm('templ', EX + 'r/{id}'), 'sjoins': [], 'classes': [EX + 'class/C'], 'sgraphs': [], 'poms': poms[:rng.choice([2, 3])]}]
+    if rng.random() < 0.5:
+        doc.append({'id': EX + 'tm/U', 'src': 'S0', 'nonasserted': False, 'subj': tm('templ', EX + 'u/{c1}'), 'sjoins': [], 'classes': [], 'sgraphs': [],
+                    'poms': [{'preds': [tm('const', EX + 'p/id')], 'objs': [{'m': tm('ref', 'id'), 'lang': None, 'dt': None, 'joins': []}], 'graphs': []}]})
+    return {'cfg': {'nquads': False, 'mode': 'NO'}, 'sources': [{'key': 'S0', 'kind': rng.choice(['frame', 'frame', 'pylist']), 'cols': ['id', 'c1', 'c2', 'c3'], 'rows': rows}], 'doc': doc}
+
+
 def gen_graph_only_null_case(rng):
     """data-dependent graph maps whose columns are used by nothing else, with NULLs in them, in both output formats: a row without a graph value
     gives no statement under every partitioning mode (also when the output format does not show the graph)"""
@@ -87,6 +104,7 @@ def run(ctx, res):
     cases += [mapcase.gen_shard_case(ctx.rng) for _ in range(ctx.scale(8, 80))]        # same-named tables of two databases, one section each
     cases += [gen_graph_only_null_case(ctx.rng) for _ in range(ctx.scale(10, 100))]
     cases += [gen_working_col_case(ctx.rng) for _ in range(ctx.scale(10, 100))]
+    cases += [gen_shared_frame_case(ctx.rng) for _ in range(ctx.scale(10, 100))]
     batch = family.Batch(ctx)
     per_mode = {m: batch.run(cases, cfg_override={'mode': m}, want_spec=False) for m in MODES}
     for i, case in enumerate(cases):
